@@ -570,8 +570,8 @@ func runC15(c *Ctx) int {
 	if bin == "" {
 		c.Inconclusive("bbolt CLI binary not built (VCHECK_BBOLT)")
 	}
-	nGen := c.Pick(48, 1600)
-	nDeep := c.Pick(24, 800)
+	nGen := c.Pick(48, 800)
+	nDeep := c.Pick(24, 400)
 	progs := apiPrograms(c.Seed+1500, nGen, []string{"buckets", "mixed", "big", "buckets", "structural", "bigkeys", "manybuckets"}, func(i int, cfg *gen.Config) {
 		cfg.Reopen = 0.1
 		cfg.ROProbe = 0
@@ -583,7 +583,7 @@ func runC15(c *Ctx) int {
 		o := gen.OpenOpts{Freelist: backends[i%2], NoFreelistSync: i%4 == 3}
 		progs = append(progs, deepProgram(c.Seed+1501, i, pageSizes[i%len(pageSizes)], o))
 	}
-	for i := 0; i < c.Pick(16, 600); i++ {
+	for i := 0; i < c.Pick(16, 300); i++ {
 		o := gen.OpenOpts{Freelist: backends[i%2]}
 		progs = append(progs, twinProgram(c.Seed+1502, i, pageSizes[i%len(pageSizes)], o))
 	}
